@@ -4,7 +4,7 @@
    initial notifier population satisfying [wfH] (stored reference counts positive, at most one user
    notifier per identity on a list — both are invariants, [wf_is_invariant]) and every history. *)
 From Coq Require Import List Arith Bool PeanoNat Permutation.
-From TV Require Import C09.Model C09.Dyn C09.Law C09.Proofs C09.LawProofs C09.DynProofs.
+From TV Require Import C09.Model C09.Dyn C09.Law C09.Proofs C09.LawProofs C09.DynProofs C09.DynCount C09.DynSlot.
 Import ListNotations.
 
 Theorem wf_is_invariant : forall h ops s tr s',
@@ -140,6 +140,74 @@ Theorem failure_atomic_after_graph_mutations : forall ops d tr d1 o d2 ob,
 Proof. exact failure_atomic_dyn. Qed.
 Print Assumptions failure_atomic_after_graph_mutations.
 
+(* ---------- the counting theorems on a CHANGING object graph (DynCount.v) ----------
+   Histories of registrations, removals of live registrations, scalar changes and Instance-link reassignments
+   (Dyn.DSetLink, maintainers re-hooking the downstream graph), for any number of live registrations of any
+   handlers and graphs.  Side conditions ([admissible]): a reassigned slot is reachable neither from its old nor
+   from its new value (acyclicity — cycles through the slot are the known finding F14 of C08), and the live
+   registrations stay structurally valid on the new heap (otherwise the maintainer raises out of the
+   assignment).  Then at every moment every count of every notifier list is what the live registrations plan ON
+   THE CURRENT HEAP, and neither a link reassignment nor the removal of a live registration ever raises. *)
+Theorem hooks_are_expected_under_link_reassignment : forall ops d R d' R' tr,
+  dstate_inv d R -> admissible_run d R ops -> crun d R ops = (d', R', tr) ->
+  dstate_inv d' R' /\
+  forall c ob, In (c, ob) tr -> match c with CUnreg _ _ _ _ | CLink _ _ _ => o_out ob = None | _ => True end.
+Proof. exact dyn_hooks_are_expected. Qed.
+Print Assumptions hooks_are_expected_under_link_reassignment.
+
+(* one reassignment: the maintainers found on the slot turn "planned on the old heap" into "planned on the new heap" *)
+Theorem link_reassignment_maintains_the_hooks : forall h x0 f0 news, acyclic h x0 f0 news ->
+  forall R H s, dinv h H R -> flags_ok (set_links h x0 f0 news) R -> dead_handlers s = [] -> dead_objs s = [] ->
+  exists H' calls,
+    run_notifiers (set_links h x0 f0 news) s true (H (x0, f0)) (links h x0 f0) news H [] = (H', calls, None)
+    /\ dinv (set_links h x0 f0 news) H' R.
+Proof. exact link_step. Qed.
+Print Assumptions link_reassignment_maintains_the_hooks.
+
+(* once per change, with respect to the heap as it is now *)
+Theorem once_per_change_on_the_current_heap : forall d R o f s' ob k,
+  dstate_inv d R -> wfH (st_hooks (d_st d)) -> step (d_heap d) (d_st d) (Change o f) = (s', ob) ->
+  (ncalls k (o_calls ob) <= 1) /\
+  (ncalls k (o_calls ob) = 1 <-> exists g x, In (k, g, x) R /\ l_matched (d_heap d) g x (o, f) = true).
+Proof. exact dyn_once_per_change. Qed.
+Print Assumptions once_per_change_on_the_current_heap.
+
+(* all live registrations removed, whatever was reassigned in between: nothing of any handler is left anywhere *)
+Theorem all_removed_after_reassignments : forall d,
+  dstate_inv d [] -> forall o a, cntH (st_hooks (d_st d)) o (CK a) = 0.
+Proof. exact dyn_all_removed. Qed.
+Print Assumptions all_removed_after_reassignments.
+
+(* ... and with IN-PLACE CONTAINER MUTATIONS (Dyn.DSetItems: list / dict / set, event.removed / event.added) as well
+   (DynSlot.v): the event must be a faithful delta (old = removed + kept, new = added + kept) and the container
+   reachable neither from its old nor from its new items. *)
+Theorem hooks_are_expected_under_graph_mutation : forall ops d R d' R' tr,
+  dstate_inv d R -> admissible_run2 d R ops -> crun2 d R ops = (d', R', tr) ->
+  dstate_inv d' R' /\ forall c ob, In (c, ob) tr -> quiet_outcome c ob.
+Proof. exact dyn2_hooks_are_expected. Qed.
+Print Assumptions hooks_are_expected_under_graph_mutation.
+
+Theorem container_mutation_maintains_the_hooks : forall h c0 v removed added rest,
+  heap_wf h -> is_ht h c0 = false ->
+  Permutation (items h c0) (removed ++ rest) -> Permutation v (added ++ rest) ->
+  sacyclic h (ihits h c0) (items h c0) v ->
+  forall R H s, dinv h H R -> flags_ok (set_items h c0 v) R -> dead_handlers s = [] -> dead_objs s = [] ->
+  exists H' calls,
+    run_notifiers (set_items h c0 v) s false (H (c0, F_ITEMS)) removed added H [] = (H', calls, None)
+    /\ dinv (set_items h c0 v) H' R.
+Proof. exact items_step. Qed.
+Print Assumptions container_mutation_maintains_the_hooks.
+
+(* who is called by a mutation of the object graph: the notifier loop of the mutated slot (a reassigned Instance
+   link or a mutated container) calls handler k exactly once iff a live registration of k matches the slot *)
+Theorem mutation_calls_once_iff_matched : forall (h hrun : heap) R H s sg t olds news H' calls k,
+  dinv h H R -> wfH H -> dead_handlers s = [] -> dead_objs s = [] ->
+  run_notifiers hrun s t (H sg) olds news H [] = (H', calls, None) ->
+  (ncalls k calls <= 1) /\
+  (ncalls k calls = 1 <-> exists g x, In (k, g, x) R /\ l_matched h g x sg = true).
+Proof. exact slot_calls. Qed.
+Print Assumptions mutation_calls_once_iff_matched.
+
 (* ---------- non-vacuity ---------- *)
 (* object 0 has kids = list 5 = [1; 2; 3], f = 1, g = 2; objects 1, 2 have `value` (field 2), object 3
    has not.  Fields: 2 value, 3 f, 4 g, 5 kids, 9 nonexist. *)
@@ -190,3 +258,66 @@ Example law_detects_partial_rollback :
   let bad := mkI (Some ValueError) [] [((1, 2), [NUser (7, 0, 0) 1])] None in
   law_hist ex_heap univ [] 0 (mkL [] []) [] [] [] [(Register 0 7 0 [g_kids_items_value], bad)] <> [].
 Proof. vm_compute. discriminate. Qed.
+
+(* non-vacuity of the dynamic theorems: object 0 observes f.value; f is reassigned from 1 to 2; the handler then
+   follows object 2 and not object 1; the removal succeeds and leaves nothing *)
+Example ex_leaf_unreachable y : y = 1 \/ y = 2 -> forall ch, visits ex_heap 0 3 ch y = false.
+Proof.
+  intros Hy [n cs]. cbn [visits].
+  assert (hits ex_heap 0 3 n y = false) as ->.
+  { destruct n; cbn [hits]; [|reflexivity]. destruct Hy; subst; cbn; rewrite ?andb_false_r; reflexivity. }
+  assert (nexts ex_heap n y = []) as ->.
+  { destruct Hy; subst; destruct n as [f nt opt|ck nt opt]; unfold nexts; cbn;
+      repeat (match goal with |- context [if ?b then _ else _] => destruct b end; try reflexivity). }
+  cbn. induction cs; cbn; auto.
+Qed.
+Example dyn_history_nontrivial :
+  let d0 := mkD ex_heap s0 in
+  let ops := [CReg 0 7 0 g_f_value; CChange 1 2; CLink 0 3 [2]; CChange 2 2; CChange 1 2; CUnreg 0 7 0 g_f_value; CChange 2 2] in
+  dstate_inv d0 [] /\ admissible_run d0 [] ops /\
+  let '(d', R', tr) := crun d0 [] ops in
+  R' = [] /\ map (fun p => (o_out (snd p), length (o_calls (snd p)))) tr
+             = [(None, 0); (None, 1); (None, 1); (None, 1); (None, 0); (None, 0); (None, 0)].
+Proof.
+  split; [|split].
+  - split; [split; [intros o; reflexivity|split; [intros; reflexivity|intros ? ? ? []]]|split; reflexivity].
+  - cbn [admissible_run admissible]. repeat split; try exact I.
+    + intros ch y [Hy|Hy]; apply ex_leaf_unreachable; cbn in Hy; intuition.
+    + intros k g x Hin. vm_compute in Hin. destruct Hin as [E|[]]. inversion E; subst. vm_compute. reflexivity.
+    + vm_compute. left. reflexivity.
+  - vm_compute. split; reflexivity.
+Qed.
+
+(* non-vacuity with a container mutation: kids.items.<field 1> on the list 5 = [1; 2; 3]; item 3 is removed and item 2
+   inserted a second time in one event; the handler then follows 1 and 2 (once each) and not 3 *)
+Definition g_kids_items_f1 := G (NNamed 5 true false) [G (NItems CList true false) [G (NNamed 1 true false) []]].
+Example ex_item_unreachable y : y = 1 \/ y = 2 \/ y = 3 -> forall ch, svisits ex_heap (ihits ex_heap 5) ch y = false.
+Proof.
+  intros Hy [n cs]. cbn [svisits].
+  assert (ihits ex_heap 5 n y = false) as ->.
+  { destruct n; cbn [ihits]; [reflexivity|]. destruct Hy as [Hy|[Hy|Hy]]; subst; cbn; rewrite ?andb_false_r; reflexivity. }
+  assert (nexts ex_heap n y = []) as ->.
+  { destruct Hy as [Hy|[Hy|Hy]]; subst; destruct n as [f nt opt|ck nt opt]; unfold nexts; cbn;
+      repeat (match goal with |- context [if ?b then _ else _] => destruct b end; try reflexivity). }
+  cbn. induction cs; cbn; auto.
+Qed.
+Example dyn_items_history_nontrivial :
+  let d0 := mkD ex_heap s0 in
+  let ops := [C1 (CReg 0 7 0 g_kids_items_f1); C1 (CChange 3 1); CItems 5 [1; 2; 2] [3] [2] [1; 2];
+              C1 (CChange 3 1); C1 (CChange 2 1); C1 (CUnreg 0 7 0 g_kids_items_f1); C1 (CChange 2 1)] in
+  dstate_inv d0 [] /\ admissible_run2 d0 [] ops /\
+  let '(d', R', tr) := crun2 d0 [] ops in
+  R' = [] /\ map (fun p => (o_out (snd p), length (o_calls (snd p)))) tr
+             = [(None, 0); (None, 1); (None, 1); (None, 0); (None, 1); (None, 0); (None, 0)].
+Proof.
+  split; [|split].
+  - split; [split; [intros o; reflexivity|split; [intros; reflexivity|intros ? ? ? []]]|split; reflexivity].
+  - cbn [admissible_run2 admissible2 admissible]. repeat split; try exact I.
+    + exact ex_heap_wf.
+    + apply Permutation_sym. apply (Permutation_cons_append [1; 2] 3).
+    + apply perm_swap.
+    + intros ch y [Hy|Hy]; apply ex_item_unreachable; vm_compute in Hy; intuition.
+    + intros k g x Hin. vm_compute in Hin. destruct Hin as [E|[]]. inversion E; subst. vm_compute. reflexivity.
+    + vm_compute. left. reflexivity.
+  - vm_compute. split; reflexivity.
+Qed.
